@@ -6,6 +6,7 @@ CONSTANTS
  FixFullText = TRUE
  DevCacheKeyTruncated = FALSE
  DevKeyCut = "w3"
+ DevAuthBeforeSemicolon = FALSE
  DevStarSkipsDeny = FALSE
  OnlyWide = FALSE
 INIT Init
